@@ -20,7 +20,10 @@ MANIFEST = {
             '{0,1,2,3,4,7}, bounds as literals/variables/expressions, nesting '
             'to depth 3 of any kind in any other and inside routines, break in '
             'every position, populations with 0-8 lights sharing or not '
-            'sharing groups. Loop variables are printed and compared with an '
+            'sharing groups; one case in ten is a cycle loop (plain or over '
+            'lights) entered under a unit mode other than the lexically '
+            'preceding one (routine defined before a units switch, units '
+            'switched inside a routine or an if arm). Loop variables are printed and compared with an '
             'independent interpreter (relative tolerance 1e-9). Sampled.',
     'note': 'Trusted: reference interpreter; iteration order = sorted names '
             'within each listed source, sources in the order written; a light '
@@ -40,8 +43,8 @@ ASSUMPTIONS = [
 PROFILE = gen.profile(
     len=(5, 30),
     w={'repeat': 22, 'break': 7, 'print': 8, 'action': 6, 'assign': 6,
-       'if': 6, 'setreg': 3, 'routine': 2, 'call': 3, 'return': 1, 'get': 1,
-       'units': 0.8, 'time': 0.3, 'time_at': 0, 'wait': 0.3, 'printf': 1,
+       'if': 6, 'setreg': 3, 'routine': 4, 'call': 7, 'return': 1, 'get': 1,
+       'units': 3, 'time': 0.3, 'time_at': 0, 'wait': 0.3, 'printf': 1,
        'define': 1, 'default': 0.2},
     trace_loops=0.85, trace_vars=0.2, zero_cycle=True, matrix=False)
 KINDS = ['count', 'range', 'interp', 'cycle', 'while', 'inf', 'all', 'groups',
@@ -54,13 +57,67 @@ REQUIRED = (['tag:repeat-' + k for k in KINDS]
                'tag:break-depth3', 'loop:n=0', 'loop:n=1', 'loop:range-',
                'loop:range+', 'loop:interp n=0', 'loop:interp n=1',
                'loop:cycle n=0', 'loop:cycle n=1', 'loop:all n=0',
-               'loop:in n=0', 'loop:in n=3', 'tag:loop-vars-printed'])
+               'loop:in n=0', 'loop:in n=3', 'tag:loop-vars-printed',
+               'tag:units-crossing'])
+
+
+def crossing(rng, pop):
+    """cycle loops whose unit mode at loop entry is not the one of the
+    lexically preceding `units` command (the generator itself only switches
+    units in straight-line top-level code)"""
+    m1, m2 = rng.choice(['logical', 'raw', 'rgb']), rng.choice(
+        ['logical', 'raw', 'raw', 'rgb'])
+
+    def cyc(v, light_loop=False):
+        n = rng.choice([0, 1, 2, 3, 4, 7])
+        st = rng.choice([None, None, ['num', 0], ['num', 90], ['num', 100.5],
+                         ['num', 30000], ['var', 'k']])
+        body = [['print', ['var', v]]]
+        if light_loop:
+            return ['repeat', 'all', {'lvar': 'each', 'with': ['cycle', v, st]},
+                    body]
+        return ['repeat', 'cycle', {'n': ['num', n], 'var': v, 'start': st},
+                body]
+
+    def call(name):
+        return ['call', name, [], None]
+    shape = rng.choice(['routine-before-units', 'units-in-routine', 'if-arm',
+                        'light-loop-in-routine', 'nested-call'])
+    k = rng.choice([0, 3, 8, 200])
+    prog = [['assign', 'k', ['num', k]]]
+    if shape == 'routine-before-units':
+        prog += [['units', m1],
+                 ['routine', 'sweep', [], [cyc('rx')], True], ['units', m2],
+                 call('sweep'), ['units', m1], call('sweep')]
+    elif shape == 'units-in-routine':
+        prog += [['routine', 'to_mode', [], [['units', m2]], True],
+                 ['units', m1], call('to_mode'), cyc('lx'), ['units', m1],
+                 cyc('ly')]
+    elif shape == 'if-arm':
+        prog += [['units', m1],
+                 ['if', ['bin', '>', ['var', 'k'], ['num', 5]],
+                  [['units', m2]], rng.choice([None, [['units', m1]]])],
+                 cyc('lx'),
+                 ['if', ['bin', '<', ['var', 'k'], ['num', 5]],
+                  [['units', m2]], None],
+                 cyc('ly')]
+    elif shape == 'light-loop-in-routine':
+        prog += [['routine', 'each_one', [], [cyc('rx', True)], True],
+                 ['units', m2], call('each_one'), ['units', m1],
+                 call('each_one')]
+    else:
+        prog += [['routine', 'inner', [], [cyc('rx')], True],
+                 ['routine', 'outer', [], [['units', m2], call('inner')], True],
+                 ['units', m1], call('inner'), call('outer'), call('inner')]
+    return prog, {'units-crossing-' + shape, 'units-crossing'}, []
 
 
 def run_shard(ctx):
     n = N[ctx.tier]
     for i in range(ctx.shard, n, ctx.nshards):
-        out = progcheck.one_case(ctx, i, PROFILE, 'c04')
+        out = progcheck.one_case(
+            ctx, i, PROFILE, 'c04',
+            prog_fn=crossing if i % 10 == 9 else None)
         if out is None:
             continue
         looped = out.stats.get('st:repeat', 0) > 0
